@@ -176,6 +176,12 @@ class NoneConverter(Converter[None]):
     Converter which accepts only ``None``.
     """
 
+    def into_data(self, val: t.Any) -> DataType:
+        """See [`Converter.into_data`][pane.converters.Converter.into_data]"""
+        if val is None:
+            return None
+        return into_data(val, None)
+
     def try_convert(self, val: t.Any) -> None:
         """See [`Converter.try_convert`][pane.converters.Converter.try_convert]"""
         if val is None:
